@@ -62,7 +62,7 @@ def _partitions(n, rng, k):
 class Prop(PropBase):
     id = "C09"
     lean_targets = ["PbProps.C09"]
-    theorems = ["Pb.C09." + t for t in ("C09_container", "C09_blockwise", "C09_blockwise_grid", "C09_schedule_confluence")]
+    theorems = ["Pb.C09." + t for t in ("C09_container", "C09_blockwise", "C09_blockwise_grid", "C09_schedule_confluence", "C09_source_sites")]
     trusted_base = ["PbModel/Dask.lean (hand model)", "dask (graph construction, rechunk, schedulers: exercised, not modelled)"]
     assumptions = ["FFT-based operations are given inputs that are not chunked along the time axis (the property's own restriction)",
                    "values compared bitwise, falling back to 4 ulp of the largest magnitude for FFT-based results"]
